@@ -387,6 +387,192 @@ impl Family for KindHistory {
 }
 
 
+/// shim for [`KindWalks`]: like `rows_behave`, with two statements (id 1: no parameters, id 2: one
+/// parameter), an error reply, a chained pair of resultsets and a refused schema change.
+fn walk_behave() -> Box<dyn FnMut(usize, &Cb) -> Behavior> {
+    let cols = Arc::new(vec![col("c", ColumnType::MYSQL_TYPE_LONG, ColumnFlags::empty())]);
+    let mut rows_of: std::collections::HashMap<u32, usize> = std::collections::HashMap::new();
+    Box::new(move |_, cb| {
+        let set = |p: &mut Vec<WOp>, r: usize, last: bool| {
+            p.push(WOp::Start(cols.clone()));
+            for i in 0..r {
+                p.push(WOp::WriteRow(vec![Val::I32(i as i32)]));
+            }
+            p.push(if last { WOp::Finish } else { WOp::FinishOne });
+        };
+        match cb {
+            Cb::Query(t) => {
+                let mut p = Vec::new();
+                if let Some(r) = t.strip_prefix("r=") {
+                    set(&mut p, r.parse().unwrap_or(0), true);
+                } else if t == "e" {
+                    p.push(WOp::Error(msql_srv::ErrorKind::ER_NO_SUCH_TABLE, b"no such table".to_vec()));
+                } else if t == "m" {
+                    set(&mut p, 2, false);
+                    set(&mut p, 1, true);
+                } else {
+                    p.push(WOp::Completed(1, 2));
+                }
+                Behavior::Prog(Arc::new(p))
+            }
+            Cb::Prepare(t) => {
+                if t == "bad" {
+                    return Behavior::PrepError(msql_srv::ErrorKind::ER_PARSE_ERROR, b"no".to_vec());
+                }
+                let (id, np) = if t.starts_with("p1") { (2, 1) } else { (1, 0) };
+                rows_of.insert(id, t.rsplit('=').next().and_then(|x| x.parse().ok()).unwrap_or(0));
+                Behavior::PrepReply {
+                    id,
+                    params: param_cols(np),
+                    cols: param_cols(1),
+                }
+            }
+            Cb::Execute { id, .. } => {
+                let mut p = Vec::new();
+                set(&mut p, rows_of.get(id).copied().unwrap_or(0), true);
+                Behavior::Prog(Arc::new(p))
+            }
+            Cb::Init(t) if t == "nodb" => Behavior::InitErr(msql_srv::ErrorKind::ER_BAD_DB_ERROR, b"unknown".to_vec()),
+            Cb::Init(_) => Behavior::InitOk,
+            _ => Behavior::Silent,
+        }
+    })
+}
+
+/// Sequences of `depth` exchanges of every kind (replies of 1, several and hundreds of packets,
+/// errors from the shim and from the library, chained resultsets, PREPARE replies, commands that
+/// are not answered at all), each request with its own sequence id from a palette around the wrap,
+/// then a sentinel PING: the numbering of each reply depends only on its own request.
+struct KindWalks {
+    depth: usize,
+}
+impl KindWalks {
+    const IDS: [u8; 7] = [0, 1, 42, 127, 253, 254, 255];
+    fn alphabet() -> Vec<(&'static str, ClientCmd)> {
+        let one = |b: &[u8]| ExecParam {
+            ty: 0xfd,
+            unsigned: false,
+            wire: Some({
+                let mut v = Vec::new();
+                put_lenenc_str(&mut v, b);
+                v
+            }),
+            long: false,
+        };
+        let long = ExecParam {
+            ty: 0xfc,
+            unsigned: false,
+            wire: None,
+            long: true,
+        };
+        vec![
+            ("query->OK", q(b"ok")),
+            ("query->3 rows", q(b"r=3")),
+            ("query->300 rows", q(b"r=300")),
+            ("query->ERR", q(b"e")),
+            ("query->two resultsets", q(b"m")),
+            ("prepare #1", ClientCmd::new(with_byte(COM_STMT_PREPARE, b"r=2"))),
+            ("prepare #2 (one parameter)", ClientCmd::new(with_byte(COM_STMT_PREPARE, b"p1 r=4"))),
+            ("prepare refused", ClientCmd::new(with_byte(COM_STMT_PREPARE, b"bad"))),
+            ("execute #1", ClientCmd::new(cmd_execute(1, 0, 1, &[]))),
+            ("execute #2 inline", ClientCmd::new(cmd_execute(2, 0, 1, &exec_block(&[one(b"v")], true)))),
+            ("execute #2 long", ClientCmd::new(cmd_execute(2, 0, 1, &exec_block(&[long], true)))),
+            ("long data #2", ClientCmd::new(cmd_long(2, 0, b"chunk"))),
+            ("close #1", ClientCmd::new(cmd_close(1))),
+            ("close #77", ClientCmd::new(cmd_close(77))),
+            ("ping", ping()),
+            ("init db", ClientCmd::new(with_byte(COM_INIT_DB, b"db"))),
+            ("init db refused", ClientCmd::new(with_byte(COM_INIT_DB, b"nodb"))),
+            ("USE query", q(b"USE db")),
+            ("field list", ClientCmd::new(with_byte(COM_FIELD_LIST, b"t\0"))),
+            ("SELECT @@ probe", q(b"SELECT @@max_allowed_packet")),
+        ]
+    }
+    fn conv(&self, idx: u64) -> (Conv, String) {
+        let a = Self::alphabet();
+        let mut rad = vec![Self::IDS.len() as u64];
+        rad.extend(std::iter::repeat(a.len() as u64).take(self.depth));
+        let d = digits(idx, &rad);
+        let mut cmds = Vec::new();
+        let mut what = Vec::new();
+        for j in 0..self.depth {
+            let (n, c) = &a[d[1 + j] as usize];
+            // ids walk through the palette with a stride that depends on the position
+            let id = Self::IDS[(d[0] as usize + j * (1 + j)) % Self::IDS.len()];
+            cmds.push(c.clone().seq(id));
+            what.push(format!("{} (id {})", n, id));
+        }
+        cmds.push(ping().seq(100));
+        (Conv::new(cmds), what.join(", "))
+    }
+}
+impl Family for KindWalks {
+    fn ambient(&self, idx: u64) -> u64 {
+        crate::engine::rot(idx)
+    }
+    fn name(&self) -> String {
+        format!("exchange-kind-walks-depth-{}", self.depth)
+    }
+    fn len(&self) -> u64 {
+        Self::IDS.len() as u64 * (Self::alphabet().len() as u64).pow(self.depth as u32)
+    }
+    fn run(&self, idx: u64, st: &mut Stats) -> Result<(), Violation> {
+        let (conv, what) = self.conv(idx);
+        // executing a statement that is not open ends the connection (C10's subject): such walks
+        // are left to C10
+        // (and so are executions whose parameter block disagrees with the long data sent)
+        let mut open = [false; 3];
+        let mut pending = false;
+        for c in &conv.cmds {
+            let p = &c.payload;
+            let mut skip = false;
+            match p[0] {
+                COM_STMT_PREPARE if p.starts_with(b"\x16p1") => {
+                    open[2] = true;
+                    pending = false;
+                }
+                COM_STMT_PREPARE if &p[1..] != b"bad" => open[1] = true,
+                COM_STMT_CLOSE if p[1] == 1 => open[1] = false,
+                COM_STMT_SEND_LONG_DATA => {
+                    skip = !open[2];
+                    pending = true;
+                }
+                COM_STMT_EXECUTE if p[1] == 2 => {
+                    let long = p.len() == 14;
+                    skip = !open[2] || long != pending;
+                    pending = false;
+                }
+                COM_STMT_EXECUTE => skip = !open[1],
+                _ => {}
+            }
+            if skip {
+                st.skipped += 1;
+                return Ok(());
+            }
+        }
+        st.nontrivial += 1;
+        st.bump("kind_walks");
+        let s = conv.stream();
+        let stream = Arc::new(s.bytes);
+        let mut sim = sim_for(&stream, vec![]);
+        sim.log_ops = false;
+        let o = run_conn(sim, ConnCfg::new(walk_behave()));
+        let tag = |e: String| format!("{}: {}", what, e);
+        if let ConnResult::Panic(l, m) = &o.res {
+            return Err(Violation::new(panic_key(l, m), tag(format!("run_on panicked at {}: {}", l, m))));
+        }
+        if !o.res.is_ok() {
+            return Err(Violation::new("result-not-ok", tag(format!("run_on returned {}", o.res.short()))));
+        }
+        let d = decode_all(delivered(&o), &conv, &s.last_seq, conv.cmds.len(), false).map_err(|e| seq_violation(tag(e)))?;
+        st.transitions += d.n_pkts as u64;
+        Ok(())
+    }
+    fn describe(&self, idx: u64) -> J {
+        json!(self.conv(idx).1)
+    }
+}
+
 /// deviation-bounded on the write side: the fault-free run of a response is recorded, then
 /// re-run once per transport write with exactly that write accepting fewer bytes than offered
 /// (1 byte, half, all but one). Packets must still arrive whole, in order, consecutively numbered.
@@ -512,6 +698,7 @@ pub fn build(quick: bool) -> Check {
     }
     families.push(Box::new(HsIds));
     families.push(Box::new(KindHistory));
+    families.push(Box::new(KindWalks { depth: if quick { 4 } else { 5 } }));
     families.push(Box::new(Fragmented {
         firsts: if quick { vec![0, 254] } else { vec![0, 1, 253, 254, 255] },
         nfrag: if quick { vec![2, 3] } else { vec![2, 3, 4] },
@@ -525,12 +712,12 @@ pub fn build(quick: bool) -> Check {
     Check {
         id: "C05",
         level: "model_checking",
-        rule: "every command kind after every kind of previous exchange x request ids {0,1,42,127,254,255}; request sequence id x response length (1 and 4..520 packets, text and binary), each followed by a second command with an unrelated id; handshake responses with every id; 2-, 3- (thorough: 4-) fragment requests starting at ids around the wrap, with reads ending at every subset of the fragment boundaries; responses whose single row spans 2..4 maximal packets; responses of 40 KiB..1 MiB in 5..2000 packets under transport writes of at most 5 / 1460 / 23359 / 65536 bytes; four responses re-run with exactly one transport write accepting 1 byte / half / all but one byte, for every write of the undisturbed run. Oracle: packet i of a reply carries (last request id + 1 + i) mod 256. Non-trivial = request id != 0 (the only id the test clients use).".into(),
+        rule: "every command kind after every kind of previous exchange x request ids {0,1,42,127,254,255}; every sequence of 4 (thorough: 5) exchanges over 20 kinds (replies of 1..304 packets, shim and library errors, chained resultsets, PREPARE replies, unanswered commands) with per-position request ids around the wrap; request sequence id x response length (1 and 4..520 packets, text and binary), each followed by a second command with an unrelated id; handshake responses with every id; 2-, 3- (thorough: 4-) fragment requests starting at ids around the wrap, with reads ending at every subset of the fragment boundaries; responses whose single row spans 2..4 maximal packets; responses of 40 KiB..1 MiB in 5..2000 packets under transport writes of at most 5 / 1460 / 23359 / 65536 bytes; four responses re-run with exactly one transport write accepting 1 byte / half / all but one byte, for every write of the undisturbed run. Oracle: packet i of a reply carries (last request id + 1 + i) mod 256. Non-trivial = request id != 0 (the only id the test clients use).".into(),
         assumptions: vec!["sequence ids of server packets are read by the independent framer (refwire)".into()],
         bounds: json!({"max_response_packets": 520, "fragments": if quick {2} else {3}}),
         exhaustive: true,
         caps_hit: vec![],
         families,
-        required: vec!["one_short_write_runs", "requests_of_three_or_more_packets", "kind_history_cases", "request_id_255", "replies_wrapping_past_255", "fragmented_requests", "large_response_messages", "bulky_responses"],
+        required: vec!["one_short_write_runs", "requests_of_three_or_more_packets", "kind_history_cases", "kind_walks", "request_id_255", "replies_wrapping_past_255", "fragmented_requests", "large_response_messages", "bulky_responses"],
     }
 }
